@@ -131,6 +131,7 @@ func genNyctMsg(t *rapid.T, zone string) (*rgen.Msg, int, int, bool) {
 	}
 	nN := rapid.IntRange(0, 5).Draw(t, "nNyct")
 	swapSet := false
+	var prevNyct []rgen.TripDesc
 	for i := 0; i < nN; i++ {
 		origin := rapid.OneOf(rapid.IntRange(0, 599999), rapid.SampledFrom([]int{0, 1, 2, 9, 10, 99, 100, 101, 5999, 6000, 143999, 144000, 599999})).Draw(t, "origin")
 		id := fmt.Sprintf("%06d%s", origin, rapid.SampledFrom(nyctSuffixes).Draw(t, "suffix"))
@@ -140,6 +141,15 @@ func genNyctMsg(t *rapid.T, zone string) (*rgen.Msg, int, int, bool) {
 		id = fmt.Sprintf("%s%d", id, i) // alnum tail keeps the NYCT format and makes ids distinct
 		route := rapid.SampledFrom([]string{"A", "1", "M", "M", "GS"}).Draw(t, "route")
 		d := rgen.TripDesc{TripID: &id, RouteID: &route, StartDate: rgen.P(rgen.GenDate(t, "startDate", zone))}
+		if len(prevNyct) > 0 && rapid.IntRange(0, 4).Draw(t, "sameTripIDOtherDay") == 0 {
+			// the same trip_id on another service day is another trip, with NYCT data of its own
+			pv := prevNyct[rapid.IntRange(0, len(prevNyct)-1).Draw(t, "sameTripIDAs")]
+			if *pv.StartDate != *d.StartDate {
+				id = *pv.TripID
+				route = *pv.RouteID
+			}
+		}
+		prevNyct = append(prevNyct, d)
 		if rapid.Bool().Draw(t, "wireStartTime") {
 			d.StartTime = rgen.P(fmt.Sprintf("%02d:00:07", rapid.IntRange(0, 23).Draw(t, "wireH")))
 		}
